@@ -78,6 +78,36 @@ def norm_facts(facts):
     return frozenset(out)
 
 
+def saturate(facts):
+    """Order-theoretic consequences of the comparison facts of one code path (the compared quantities are unsigned
+    integers: a total order).  Used for the soundness direction only: a contract guard `!(a==b)` holds on a path that
+    established `a<b`; `b<a` holds on a path that established `!(a<b)` and `!(a==b)` (e.g. a `match a.cmp(&b)` arm)."""
+    fs = set(facts)
+    changed = True
+    while changed:
+        changed = False
+        new = set()
+        for (t, p) in fs:
+            if not (isinstance(t, tuple) and t and t[0] in ("Lt", "Eq") and len(t) == 3):
+                continue
+            a, b = t[1], t[2]
+            x, y = sorted([a, b], key=repr)
+            eq = ("Eq", x, y)
+            if t[0] == "Lt" and p:
+                new |= {(("Lt", b, a), False), (eq, False)}
+            elif t[0] == "Eq" and p:
+                new |= {(("Lt", a, b), False), (("Lt", b, a), False)}
+            elif t[0] == "Lt" and not p:
+                if (eq, False) in fs:
+                    new.add((("Lt", b, a), True))
+                if (("Lt", b, a), False) in fs:
+                    new.add((eq, True))
+        if not new <= fs:
+            fs |= new
+            changed = True
+    return frozenset(fs)
+
+
 def norm_effects(seg):
     out = []
     for e in seg:
@@ -120,7 +150,7 @@ def node_name(n):
 
 
 class Edge:
-    __slots__ = ("src", "res", "dst", "pos", "effects", "facts", "line")
+    __slots__ = ("src", "res", "dst", "pos", "effects", "facts", "line", "facts_sat")
 
     def key(self):
         return (self.src, self.res, self.dst, self.effects)
@@ -166,6 +196,7 @@ def computed_edges(raw):
         e.pos = frozenset(d.replace(" ", "") for d in descs)
         e.effects = norm_effects(seg)
         e.facts = norm_facts(facts)
+        e.facts_sat = norm_facts(saturate(facts))
         e.line = None
         k = (e.src, e.res, e.dst, e.pos, e.effects, e.facts)
         if k in seen:
@@ -275,9 +306,10 @@ def conforms(spec_edges, comp_edges):
         ok = False
         why = []
         for se in cands:
-            if not se.facts <= ce.facts:
+            cfacts = getattr(ce, "facts_sat", None) or ce.facts
+            if not se.facts <= cfacts:
                 # a guard the contract demands is absent or has the opposite polarity on the code path
-                miss = sorted(se.facts - ce.facts)
+                miss = sorted(se.facts - cfacts)
                 why.append("guard %s not established" % ", ".join(("" if p else "!") + a for a, p in miss))
                 continue
             if not pos_ok(se.pos, ce.pos, ce.dst):
